@@ -52,12 +52,41 @@ func (l *Listener) Close() error {
 
 func (l *Listener) Addr() net.Addr { return l.a }
 
+type ctxKey int
+
+const (
+	// OpKey: a value stored under this key in the context a caller hands to pint
+	// travels through pint and net/http down to the dialer, which reports it to
+	// OnDialCtx - that is how an attempt is attributed to the operation that made it.
+	OpKey ctxKey = iota
+	// ConnTagKey: request contexts of the simulated servers carry the tag the
+	// dial hook attached to the connection.
+	ConnTagKey
+)
+
 // Host is one simulated endpoint ("prom0:9090").
 type Host struct {
 	L *Listener
 	// OnDial is consulted for every connection attempt (ordinal from 0). Nil = DialOK.
 	OnDial func(n int) DialAction
-	dials  int
+	// OnDialCtx, when set, replaces OnDial: it also sees the caller's OpKey value
+	// and returns a tag that the server side finds in its request context.
+	OnDialCtx func(n int, op any) (DialAction, any)
+	dials     int
+}
+
+// TaggedConn is the server end of a connection with the dial hook's tag.
+type TaggedConn struct {
+	net.Conn
+	Tag any
+}
+
+// ConnContext is an http.Server.ConnContext that exposes the connection tag.
+func ConnContext(ctx context.Context, c net.Conn) context.Context {
+	if tc, ok := c.(*TaggedConn); ok {
+		return context.WithValue(ctx, ConnTagKey, tc.Tag)
+	}
+	return ctx
 }
 
 // Net is one run's network. It must be created and closed inside the bubble.
@@ -111,10 +140,13 @@ func (n *Net) DialContext(ctx context.Context, network, hostport string) (net.Co
 	n.mu.Lock()
 	h := n.hosts[hostport]
 	var act DialAction
+	var tag any
 	if h != nil {
 		k := h.dials
 		h.dials++
-		if h.OnDial != nil {
+		if h.OnDialCtx != nil {
+			act, tag = h.OnDialCtx(k, ctx.Value(OpKey))
+		} else if h.OnDial != nil {
 			act = h.OnDial(k)
 		}
 	}
@@ -137,8 +169,12 @@ func (n *Net) DialContext(ctx context.Context, network, hostport string) (net.Co
 		}
 	}
 	c1, c2 := net.Pipe()
+	var srvEnd net.Conn = c2
+	if tag != nil {
+		srvEnd = &TaggedConn{Conn: c2, Tag: tag}
+	}
 	select {
-	case h.L.ch <- c2:
+	case h.L.ch <- srvEnd:
 		return c1, nil
 	case <-h.L.closed:
 		n.Refused.Add(1)
